@@ -894,6 +894,9 @@ impl World for MsWorld {
                     for (d, x) in merges.iter() {
                         if let Some(at) = pre.dy_attr.get(d) {
                             let p = Self::f_part(at, x);
+                            if p.is_zero() {
+                                fails.add("dy_part_formula", format!("stake: merged payment {d}:{x} releases an LP-farm part of 0 (lpA {} stA {})", at.lp_a, at.st_a));
+                            }
                             *self.released.entry(*d).or_default() += &p;
                             m_lp += p;
                             m_st += x;
@@ -1213,6 +1216,7 @@ impl World for MsWorld {
         // C15 dy_backed: per farm-token nonce the proxy really holds what the outstanding dual-yield tokens record
         let mut need_lp = NMap::new();
         let mut need_st = NMap::new();
+        let mut lp_users: BTreeMap<u64, u64> = BTreeMap::new();
         for (d, out) in post.dy_out.iter() {
             if let Some(a) = post.dy_attr.get(d) {
                 if a.st_a.is_zero() || *out > a.st_a {
@@ -1222,12 +1226,15 @@ impl World for MsWorld {
                 let need = (&a.lp_a * out + &a.st_a - BigUint::one()) / &a.st_a; // ceil: the share still owed
                 *need_lp.entry(a.lp_n).or_default() += need;
                 *need_st.entry(a.st_n).or_default() += out;
+                *lp_users.entry(a.lp_n).or_default() += 1;
             }
         }
         for (nn, need) in need_lp.iter() {
             let have = nget(&post.proxy.lpfarm, *nn);
             if &have < need { fails.add("dy_backed", format!("LP-farm nonce {nn}: proxy holds {have} < recorded share {need}")); }
+            if ok && proxy_op && &have > need { tr.count("branch.floor_dust_present"); }
         }
+        if ok && proxy_op && lp_users.values().any(|c| *c > 1) { tr.count("branch.lp_nonce_shared_by_dy_nonces"); }
         for (nn, need) in need_st.iter() {
             let have = nget(&post.proxy.stk, *nn);
             if &have < need { fails.add("dy_backed", format!("staking-farm nonce {nn}: proxy holds {have} < outstanding {need}")); }
